@@ -176,6 +176,33 @@ def load_path(rng, steps, slot0_only=False):
     return out
 
 
+def ladder_increment(rng, v, inc_exp, mixed=False):
+    """Componentwise relative change of size 10**inc_exp (sign random, magnitude factor in [0.5, 1]);
+    mixed: the first component changes by O(1) relative, the rest by 10**inc_exp."""
+    v = onp.array(v, dtype=float)
+    u = rng.uniform(0.5, 1.0, v.shape) * rng.choice([-1.0, 1.0], v.shape)
+    rel = onp.full(v.shape, 10.0 ** inc_exp)
+    if mixed:
+        rel[0] = 1.0
+    out = v * (1.0 + rel * u)
+    return out
+
+
+def load_path_ladder(rng, steps, inc_exp, pscale, mixed=False, slot0_only=False):
+    """Load path whose slot-0 (and, unless slot0_only, slot-2) data have absolute scale `pscale` and change by a relative
+    increment 10**inc_exp per component every step (fine load stepping / cut-back steps / tiny or huge data)."""
+    p0 = (rng.uniform(0.5, 1.5, NP0) * rng.choice([-1.0, 1.0], NP0)) * pscale
+    p2 = (rng.uniform(0.3, 1.0, NP2) * rng.choice([-1.0, 1.0], NP2)) * pscale
+    t = 0.0
+    out = [(p0.copy(), onp.zeros(2), p2.copy(), None, t)]
+    for k in range(steps):
+        p0 = ladder_increment(rng, p0, inc_exp, mixed)
+        if not slot0_only and rng.random() < 0.5:
+            p2 = ladder_increment(rng, p2, inc_exp, mixed)
+        out.append((p0.copy(), onp.full(2, float(k + 1)), p2.copy(), None, t))
+    return out
+
+
 def make_linear_constraints(rng, E, m, xref):
     """c(x, p) = G x - h + F p0 >= 0 with a mix of active / inactive rows around xref."""
     n = E["n"]
